@@ -66,6 +66,10 @@ func renderShape(shape string, n int) (string, error) {
 	case "bind-self-multi":
 		k := min(n, 24)
 		return fmt.Sprintf("/p {%s} def 0 1 %d {/p load exch /p load put} for /p load bind", rep("0 ", k), k-1), nil
+	case "alias-cycle":
+		return "/a {a} 0 get def a", nil
+	case "alias-cycle-2":
+		return "/a {b} 0 get def /b {a} 0 get def b", nil
 	case "default-handler":
 		return "errordict /typecheck get exec", nil
 	case "big-for":
@@ -122,6 +126,19 @@ func renderT1Shape(shape string, n int) ([]byte, error) {
 		addg(std[0].name, []indep.Tok{num(10), num(500), cmd("hsbw"), num(10), num(1), num(1), num(int64(std[0].code)), num(int64(std[0].code)), cmd("seac")})
 		addg(std[1].name, []indep.Tok{num(10), num(500), cmd("hsbw"), num(10), num(1), num(1), num(int64(std[2].code)), num(int64(std[2].code)), cmd("seac")})
 		addg(std[2].name, []indep.Tok{num(10), num(500), cmd("hsbw"), num(10), num(1), num(1), num(int64(std[1].code)), num(int64(std[1].code)), cmd("seac")})
+	case "t1-seac-codes":
+		// composites whose base / accent codes are unassigned in StandardEncoding (or out of range),
+		// in a font without an encoding array, with the standard one, and with a custom one
+		addg("A", []indep.Tok{num(10), num(500), cmd("hsbw"), num(10), num(0), cmd("rmoveto"), num(100), cmd("hlineto"), cmd("closepath"), cmd("endchar")})
+		codes := []int64{0, 31, 127, 160, 255, 65, 256, -1, 1000000}
+		for i, c := range codes {
+			addg(std[10+i].name, []indep.Tok{num(10), num(500), cmd("hsbw"), num(10), num(1), num(1), num(c), num(codes[(i+3)%len(codes)]), cmd("seac")})
+		}
+		enc := []string{"none", "std", "custom"}[len(fmt.Sprint(n))%3]
+		if enc == "custom" {
+			spec.Encoding = map[int]string{65: "A", 0: "A"}
+		}
+		return indep.WriteFont(spec, indep.Layout{Cont: "clear", LenIV: 4, Names: "RD", Enc: enc})
 	default:
 		return nil, fmt.Errorf("unknown shape %q", shape)
 	}
@@ -179,12 +196,26 @@ func runShapes(args []string) error {
 	}
 	sum := replaySummary{PerOp: map[string]int{}, PerOpOK: map[string]int{}, BySig: map[string]int{}}
 	self, _ := os.Executable()
+	seenShape := map[string]bool{}
 	for _, path := range args {
 		err := model.ReadVectors(path, func(line int, raw []byte) error {
 			var v vec
 			if err := json.Unmarshal(raw, &v); err != nil {
 				return err
 			}
+			// shapes whose program does not depend on the size run once
+			key := v.Shape
+			if strings.HasPrefix(v.Shape, "t1-") {
+				if data, err := renderT1Shape(v.Shape, v.Size); err == nil {
+					key += string(data)
+				}
+			} else if text, err := renderShape(v.Shape, v.Size); err == nil {
+				key += text
+			}
+			if seenShape[key] {
+				return nil
+			}
+			seenShape[key] = true
 			sum.Vectors++
 			sum.PerOp[v.Shape]++
 			cmd := exec.Command(self, "run-shape-child", v.Shape, fmt.Sprint(v.Size), fmt.Sprint(shapeBudget(v.Shape, v.Size)))
